@@ -423,7 +423,8 @@ func cmdCheck(args []string) {
 		}
 		base := strings.TrimSuffix(o.Name, "@outside-known-region")
 		claimed := claims.names[base] || claims.complete[o.Func]
-		return claimed && o.Result == "unknown" && !genClaims && !strings.HasSuffix(o.Name, "@known-region")
+		// (vacuity checks are not retried: an unknown there is undecided, never a violation)
+		return claimed && o.Result == "unknown" && !o.ExpectSat && !genClaims && !strings.HasSuffix(o.Name, "@known-region")
 	}
 	solveAll(results, budget*4, 16, retry)
 
